@@ -18,8 +18,9 @@ The proof is a TRANSLATION (nothing in the proofs on `tyOK … tyOK3` is touched
   * `ProtoOpaqueEntry`   `marshal_ob`, `unmarshal_ob`, the universes, `struct_bytes_opaque`
   * here                 the theorems of C03 / C12.
 
-Comparison form. `Spec.Protobuf.canonTy` has no catch-all case for an opaque leaf: on a value other than `.str []` it FALLS THROUGH
-to `| .named _ t, v => canonTy t v`, i.e. it compares the leaf like its underlying type `u` (`canonical_ob_counterexample`).
+Comparison form. UPDATE: `Spec.Protobuf.canonTy` now HAS a catch-all case for an opaque leaf, so the `…_canon` theorems below state
+the full results with `canonical t` and no `opaquePlain`. HISTORICAL (the two older versions): it used to FALL THROUGH
+to `| .named _ t, v => canonTy t v`, i.e. it compared the leaf like its underlying type `u`.
 For the values a leaf really has (`.str _`, `.nil`) that makes no difference, for arbitrary values it does when `u` is a struct,
 pointer, slice or map. Therefore each canonical-form theorem comes in two versions:
   * `…_opaque_ob`  on all of `tyOK4` / `tyOKM4` (struct-kind leaves included), compared with `canonical (ob t)`, the comparison form
@@ -89,6 +90,27 @@ theorem unmarshal_marshal_map_partial_opaque (fs : Fields) (v : Val)
   obtain ⟨v', h1, h2⟩ := unmarshal_marshal_map_partial_opaque_ob fs v hty hp hv hne hlen hdep
   exact ⟨v', h1, by rw [← canonical_ob_plain _ hpl, h2, canonical_ob_ov_plain _ hpl]⟩
 
+/-- the FULL statements (no `hpl`), since the repair of `Spec.Protobuf.canonTy` (catch-all case for the opaque leaf) -/
+theorem unmarshal_marshal_partial_opaque_canon (fs : Fields) (v : Val)
+    (hty : tyOK4 (.struct fs) = true)
+    (hp : ptrsOK4 (.struct fs) v = true) (hv : hasType4 (.struct fs) v = true)
+    (hne : noEmptyPtr4 (.struct fs) v = true) (hlen : (marshal (.struct fs) v).length < 2 ^ 64)
+    (hdep : Codec.nesting (codecOf (.struct fs)) ≤ Gen.c_proto_maxDepth) :
+    ∃ v', unmarshal (.struct fs) (marshal (.struct fs) v) = .ok v'
+      ∧ canonical (.struct fs) v' = canonical (.struct fs) v := by
+  obtain ⟨v', h1, h2⟩ := unmarshal_marshal_partial_opaque_ob fs v hty hp hv hne hlen hdep
+  exact ⟨v', h1, by rw [← canonical_ob_any, h2, canonical_ob_ov_any]⟩
+
+theorem unmarshal_marshal_map_partial_opaque_canon (fs : Fields) (v : Val)
+    (hty : tyOKM4 (.struct fs) = true)
+    (hp : ptrsOK4 (.struct fs) v = true) (hv : hasTypeM4 (.struct fs) v = true)
+    (hne : valOKM4 (.struct fs) v = true) (hlen : (marshal (.struct fs) v).length < 2 ^ 64)
+    (hdep : Codec.nesting (codecOf (.struct fs)) ≤ Gen.c_proto_maxDepth) :
+    ∃ v', unmarshal (.struct fs) (marshal (.struct fs) v) = .ok v'
+      ∧ canonical (.struct fs) v' = canonical (.struct fs) v := by
+  obtain ⟨v', h1, h2⟩ := unmarshal_marshal_map_partial_opaque_ob fs v hty hp hv hne hlen hdep
+  exact ⟨v', h1, by rw [← canonical_ob_any, h2, canonical_ob_ov_any]⟩
+
 /-! ## C12 the reference decoder reads what Marshal writes -/
 
 theorem reference_decodes_marshal_partial_opaque_ob (fs : Fields) (v : Val)
@@ -135,6 +157,16 @@ theorem reference_decodes_marshal_maps_partial_opaque (fs : Fields) (v : Val)
   exact reference_decodes_marshal_maps_partial_opaque_ob fs v hty hp hv hne hlen
 
 /-! ## C12 both ways, second half: what the reference decoder accepts, `Unmarshal` reads alike (no comparison form involved) -/
+
+theorem reference_decodes_marshal_maps_partial_opaque_canon (fs : Fields) (v : Val)
+    (hty : tyOKM4 (.struct fs) = true)
+    (hp : ptrsOK4 (.struct fs) v = true) (hv : hasTypeM4 (.struct fs) v = true)
+    (hne : valOKM4 (.struct fs) v = true) (hlen : (marshal (.struct fs) v).length < 2 ^ 64) :
+    (Spec.Protobuf.decode (.struct fs) (marshal (.struct fs) v)).map (canonical (.struct fs))
+      = some (canonical (.struct fs) v) := by
+  have hc : canonical (.struct fs) = canonical (ob (.struct fs)) := funext fun x => (canonical_ob_any _ x).symm
+  rw [← canonical_ob_ov_any _ v, hc]
+  exact reference_decodes_marshal_maps_partial_opaque_ob fs v hty hp hv hne hlen
 
 theorem unmarshal_of_reference_decode_opaque (fs : Fields) (hty : tyOK4 (.struct fs) = true) (b : Bytes) (v : Val)
     (hdep : Codec.nesting (codecOf (.struct fs)) ≤ Gen.c_proto_maxDepth)
